@@ -237,10 +237,13 @@ extern "C" {
 }
 
 pub fn cmd_worker(prop: &dyn Prop, args: &[String]) {
+    // lines start, start+step, start+2*step, ... below end (interleaved assignment balances
+    // generators that emit their expensive cases last)
     let ops = &args[0];
     let start: usize = args[1].parse().unwrap();
     let end: usize = args[2].parse().unwrap();
     let out = &args[3];
+    let step: usize = args.get(4).and_then(|s| s.parse().ok()).unwrap_or(1).max(1);
     if prop.mem_cap() > 0 {
         let lim = [prop.mem_cap(), prop.mem_cap()];
         unsafe {
@@ -251,7 +254,7 @@ pub fn cmd_worker(prop: &dyn Prop, args: &[String]) {
     let f = BufReader::new(fs::File::open(ops).expect("ops file"));
     let mut w = fs::OpenOptions::new().create(true).append(true).open(out).expect("out file");
     for (i, line) in f.lines().enumerate() {
-        if i < start {
+        if i < start || (i - start) % step != 0 {
             continue;
         }
         if i >= end {
@@ -280,7 +283,19 @@ struct Slot {
     cur_since: Instant,
 }
 
-fn spawn_worker(exe: &Path, pid: &str, ops: &Path, start: usize, end: usize, file: &Path) -> Child {
+/// bytes of `path` from offset `from` to its current end
+fn read_from(path: &Path, from: u64) -> Vec<u8> {
+    use std::io::{Read, Seek, SeekFrom};
+    let mut v = Vec::new();
+    if let Ok(mut f) = fs::File::open(path) {
+        if f.seek(SeekFrom::Start(from)).is_ok() {
+            let _ = f.read_to_end(&mut v);
+        }
+    }
+    v
+}
+
+fn spawn_worker(exe: &Path, pid: &str, ops: &Path, start: usize, end: usize, file: &Path, step: usize) -> Child {
     let _ = pid;
     Command::new(exe)
         .arg("worker")
@@ -288,6 +303,7 @@ fn spawn_worker(exe: &Path, pid: &str, ops: &Path, start: usize, end: usize, fil
         .arg(start.to_string())
         .arg(end.to_string())
         .arg(file)
+        .arg(step.to_string())
         .stdin(Stdio::null())
         .stdout(Stdio::null())
         .stderr(Stdio::null())
@@ -299,18 +315,17 @@ fn spawn_worker(exe: &Path, pid: &str, ops: &Path, start: usize, end: usize, fil
 pub fn supervise(prop: &dyn Prop, ops: &Path, nlines: usize, dir: &Path) -> Vec<(String, Vec<(String, String)>)> {
     let exe = std::env::current_exe().unwrap();
     let nw = prop.workers().max(1).min(nlines.max(1));
-    let chunk = (nlines + nw - 1) / nw.max(1);
     let mut results: Vec<Option<(String, Vec<(String, String)>)>> = vec![None; nlines];
     let mut slots: Vec<Slot> = Vec::new();
     for k in 0..nw {
-        let start = k * chunk;
-        let end = ((k + 1) * chunk).min(nlines);
+        let start = k;
+        let end = nlines;
         if start >= end {
             continue;
         }
         let file = dir.join(format!("worker{}.out", k));
         let _ = fs::remove_file(&file);
-        let child = spawn_worker(&exe, prop.id(), ops, start, end, &file);
+        let child = spawn_worker(&exe, prop.id(), ops, start, end, &file, nw);
         slots.push(Slot {
             child,
             file,
@@ -332,10 +347,10 @@ pub fn supervise(prop: &dyn Prop, ops: &Path, nlines: usize, dir: &Path) -> Vec<
                 continue;
             }
             // read new complete lines
-            let data = fs::read(&s.file).unwrap_or_default();
+            let data = read_from(&s.file, s.seen_bytes);
             let mut finished = false;
-            if (data.len() as u64) > s.seen_bytes {
-                let new = &data[s.seen_bytes as usize..];
+            if !data.is_empty() {
+                let new = &data[..];
                 // only consume up to last newline
                 if let Some(last_nl) = new.iter().rposition(|b| *b == b'\n') {
                     let text = String::from_utf8_lossy(&new[..=last_nl]).to_string();
@@ -361,7 +376,7 @@ pub fn supervise(prop: &dyn Prop, ops: &Path, nlines: usize, dir: &Path) -> Vec<
                                     vec![]
                                 };
                                 results[i] = Some((parts.get(2).unwrap_or(&"").to_string(), fails));
-                                s.next = i + 1;
+                                s.next = i + nw;
                                 s.cur = None;
                             },
                             "E" => finished = true,
@@ -382,8 +397,8 @@ pub fn supervise(prop: &dyn Prop, ops: &Path, nlines: usize, dir: &Path) -> Vec<
             if let Some(st) = exited {
                 // exited without "E": abort in the current case. Re-read the file once
                 // more in the next iteration if there is unread data.
-                let data2 = fs::read(&s.file).unwrap_or_default();
-                if (data2.len() as u64) > s.seen_bytes && data2[s.seen_bytes as usize..].contains(&b'\n') {
+                let data2 = read_from(&s.file, s.seen_bytes);
+                if data2.contains(&b'\n') {
                     continue;
                 }
                 let _ = st;
@@ -400,13 +415,13 @@ pub fn supervise(prop: &dyn Prop, ops: &Path, nlines: usize, dir: &Path) -> Vec<
                     fails.push((format!("#{}", reason), String::new()));
                     results[i] = Some((reason.to_string(), fails));
                 }
-                s.next = i + 1;
+                s.next = i + nw;
                 s.cur = None;
                 if s.next >= s.end {
                     done[si] = true;
                     live -= 1;
                 } else {
-                    s.child = spawn_worker(&exe, prop.id(), ops, s.next, s.end, &s.file);
+                    s.child = spawn_worker(&exe, prop.id(), ops, s.next, s.end, &s.file, nw);
                     s.cur_since = Instant::now();
                 }
             }
